@@ -247,7 +247,9 @@ class _CommonFile:
         records = self._records
         existing = key in records
         records[key] = value
-        if not existing:
+        # NOTE: a deleted key keeps its slot in the source list (see delete()),
+        #       so only add a slot if the key never had one.
+        if not existing and (_RECORD, key) not in self._source:
             self._source.append((_RECORD, key))
         return existing
 
